@@ -13,6 +13,7 @@ CLAIMED = {
     "C01": ("Every operand tuple of the stated alphabets (all 8-bit pairs, 16-bit ALL16 x lattice, 32/64-bit lattice^2, ternary lattices), at every lane offset, on each of the 22 executable architectures is executed by the real kernel and compared lane-exactly with an __int128 reference model; exhaustive within that bound (thorough: all 2^32 16-bit pairs).", "6 C01", "xvdrive"),
     "C02": ("Every point of the IEEE lattices (specials, every binade x structured mantissas, seed patterns; thorough: all 2^32 float32 patterns for unary operations), pairs and triples of lattice values, at every lane offset and on each architecture, compared bit-for-bit with the scalar SSE2 IEEE operation / glibc (fused-or-unfused latitude for the fma family, either operand for equal min/max operands).", "6 C02", "xvdrive"),
     "C03": ("All comparison outcomes on the C01/C02 pair spaces; every 16-bit mask value, all pairs of 8-bit masks and 16-bit x special pairs through five provenance/observation pairs (depth-2 chaining) against the n-bit integer model of a mask; select with tagged operands; on each architecture.", "6 C03", "xvdrive"),
+    "C04": ("Every load/store form x element type is executed at every start address of three placement windows against PROT_NONE guard pages and across a page boundary on each architecture, so that a one-byte over-read or over-write faults; store neighbourhoods are compared byte for byte; gather/scatter over exhaustive (n <= 4) and structured index vectors with guarded tables; thorough adds an AddressSanitizer build for internal scratch buffers.", "6 C04", "xvmem"),
     "C05": ("Every generated compile-time mask program (about 150-360 swizzle and 150-290 shuffle instantiations per lane count, thorough 640-1030), every slide/rotate/extract/insert count, every run-time index vector of the stated families (all n^n for n <= 4, thorough n <= 8) and every compress/expand mask (all 2^n for n <= 16) is executed on byte-tagged batches on each architecture and compared bit-exactly with the index-level definition; acceptance per (architecture, type) decided by trial compilation.", "6 C05", "xvdrive"),
     "C06": ("Every representable source value of the stated alphabets (8/16-bit exhaustive, 32-bit lattice + strided sweep, thorough all 2^32; 64-bit lattices with every rounding-regime boundary and half-way case) for every (From,To) pair of batch_cast/load_as/store_as/broadcast_as/to_int/to_float, and byte-exact bitwise_cast between all pairs, on each architecture against static_cast in a strict IEEE translation unit.", "6 C06", "xvdrive"),
     "C09": ("Lane-aware witness placement: a distinguished addend/extreme at every lane and every lane pair over several backgrounds, plus the full lattice through every lane, for every batch size 2..64 and each architecture; a skipped lane gives 0, a doubled lane gives 2; float sums exact where representable, otherwise within the (n-1)-rounding bound; generic reduce(f) wherever the library accepts it (decided by trial compilation).", "6 C09", "xvdrive"),
@@ -70,6 +71,8 @@ def main():
              "kind_free_text": "explicit-state enumeration of allocator histories on the real code (ASan build), deviation-bounded fault injection by interposing posix_memalign"},
             {"name": "gen/gen_geometry.py", "path": "gen/gen_geometry.py", "serves_properties": ["C20"],
              "kind_free_text": "program generator: every (architecture, type, lane-count) triple becomes a static_assert; the compiler enumerates them all"},
+            {"name": "xvmem", "path": "harness/h_mem.cpp", "serves_properties": ["C04"],
+             "kind_free_text": "one executable per architecture: exhaustive enumeration of pointer placements against mmap guard pages, byte-level memory model"},
             {"name": "xvmath", "path": "engine/xvmath.cpp", "serves_properties": sorted(k for k, v in CLAIMED.items() if "xvmath" in v[2]),
              "kind_free_text": "bounded exhaustive explorer for the elementary functions: complete sweeps of stated argument spaces (all 2^32 float32 arguments in the thorough tier) in two stream orders over every architecture's kernel, ulp-bound and graceful-degradation oracles, MPFR arbiter, loop-tick accounting, hang watchdog"},
             {"name": "xvdrive", "path": "engine/xvdrive.cpp", "serves_properties": sorted(k for k, v in CLAIMED.items() if "xvdrive" in v[2]),
